@@ -746,6 +746,20 @@ func (env *Env) evalCall(e CallE) *SV {
 			return ghostBool(fmt.Sprintf("(forall ((%s %s)) %s)", q, qs, implies(rng, body)))
 		}
 		return ghostBool(fmt.Sprintf("(exists ((%s %s)) %s)", q, qs, and(rng, body)))
+	case "inst":
+		// inst(name, k, body) == body; records k as an instantiation term for quantifiers binding name
+		if len(e.Args) != 3 {
+			env.fail("inst(name, k, body)")
+		}
+		if id, ok := e.Args[0].(Ident); ok {
+			if n, ok := e.Args[1].(Num); ok {
+				if vc.goalHints == nil {
+					vc.goalHints = map[string][]string{}
+				}
+				vc.goalHints[id.Name] = append(vc.goalHints[id.Name], bvLitBig(64, n.V), bvLitBig(32, n.V))
+			}
+		}
+		return env.eval(e.Args[2])
 	case "lfresh":
 		// loop invariants: the object was allocated since the loop was entered
 		need(1)
@@ -1164,6 +1178,9 @@ func (vc *VC) instantiateFor(texts ...string) []string {
 	for n, ts := range vc.hints {
 		byName[n] = append(byName[n], ts...)
 	}
+	for n, ts := range vc.goalHints {
+		byName[n] = append(byName[n], ts...)
+	}
 	// every bound-variable name may take any skolem / hint term of a matching width
 	// (a chunk index quantified as d is also needed at the goal's c, and so on)
 	pool := map[int][]string{}
@@ -1520,7 +1537,8 @@ func splitConst(e Expr) []Expr {
 	}
 	var out []Expr
 	for k := lo.V.Int64(); k < hi.V.Int64(); k++ {
-		out = append(out, substIdent(c.Args[3], id.Name, Num{big.NewInt(k)}))
+		// inst(j, k, body): body with j := k; quantified hypotheses binding j are instantiated at k for this goal
+		out = append(out, CallE{"inst", []Expr{id, Num{big.NewInt(k)}, substIdent(c.Args[3], id.Name, Num{big.NewInt(k)})}})
 	}
 	return out
 }
